@@ -51,6 +51,9 @@ def cases(tier, seed):
                 c = dict(row)
                 c.update(kind=kind, tier=tier, id=f'{kind}-{rep}-{i}', seed=hash_seed(seed, 'C03', kind, rep, i))
                 out.append(c)
+    # hard fusion of a leg that is itself a block() direct sum, one operand having lost a sector of the blocked leg: fixed structures
+    for i, (dtype, op) in enumerate(itertools.product(['real', 'complex'], ['add', 'vdot', 'dot', 'to_numpy'])):
+        out.append({'kind': 'blocked_fused', 'sym': 'U1', 'dtype': dtype, 'op': op, 'tier': tier, 'id': f'blocked_fused-{op}-{dtype}', 'seed': hash_seed(seed, 'C03', 'bf', i)})
     return out
 
 
@@ -541,7 +544,102 @@ def k_block(ctx, rng, spec, cfg):
                 sl.append(slice(o + lo, o + hi))
             ref[tuple(sl)] = blk
     ctx.eq(C, ref, 'block == direct sum placement')
+    _block_fused_common(ctx, rng, spec, cfg)
     return {'grid': grid, 'common': common, 'n_tensors': len(tens)}
+
+
+def _block_fused_common(ctx, rng, spec, cfg):
+    """block() of tensors whose COMMON (non-blocked) leg is a hard fusion of two legs with different sector content in the different tensors,
+    blocked legs first/last (the common leg in the middle): unfusing the result must give block() of the unfused tensors (whose placement
+    is checked by the direct-sum oracle above) -- missing sectors of the common space behave as zeros"""
+    import yastn
+    symn = spec['sym']
+    base = cat.rand_tensor_spec(rng, symn, 4, dims=(1, 2), nsect=(1, 2), max_size=40, dtype=spec['dtype'])
+    if base is None:
+        return
+    tens_f, tens_u = {}, {}
+    for p in range(2):
+        legs = list(base['legs'])
+        if p:
+            # different sector content on the two legs that will be fused (overlap / subset / superset / disjoint), blocked legs independent
+            mode = spec.get('overlap', 'overlap') if spec.get('overlap', 'equal') != 'equal' else rng.choice(['overlap', 'subset', 'superset'])
+            legs[1] = cat.perturb_leg(rng, symn, legs[1], mode)
+            legs[2] = cat.perturb_leg(rng, symn, legs[2], rng.choice(['equal', 'overlap', 'subset']))
+            legs[0] = cat.perturb_leg(rng, symn, legs[0], 'overlap')
+        if not cat.allowed_blocks(symn, base['s'], legs, base['n']):
+            continue
+        tsp = {'sym': symn, 'fermionic': False, 's': base['s'], 'legs': legs, 'n': base['n'], 'blocks': None, 'dtype': spec['dtype'], 'isdiag': False}
+        t = cat.build(ctx, tsp, f'bf{p}', config=cfg)
+        if t.size == 0 or t.size > 60:
+            continue
+        tens_u[(p, p)] = t
+        tens_f[(p, p)] = t.fuse_legs(axes=(0, (1, 2), 3), mode='hard')
+    if len(tens_f) < 2:
+        return
+    cf = yastn.block(tens_f, common_legs=(1,))
+    cu = yastn.block(tens_u, common_legs=(1, 2))
+    wellformed(ctx, cf, 'block with a hard-fused common leg', expect_n=tuple(base['n']), check_dense_zero=False)
+    back = cf.unfuse_legs(axes=1)
+    lu = list(cu.get_legs(native=True))
+    lb = list(back.get_legs(native=True))
+    ctx.check(len(lu) == len(lb), 'block(fused common leg).unfuse: rank')
+    U = [union_leg(x, y) for x, y in zip(lb, lu)]
+    ctx.eq(reassemble(back, U), reassemble(cu, U), 'block over a hard-fused common leg with mismatched sector content == block of the unfused tensors')
+
+
+KNOWN_BF = 'vdot / tensordot over a hard fusion p(s(oo)o) of a blocked leg after one operand lost a sector of it'
+
+
+def k_blocked_fused(ctx, rng, spec, cfg):
+    """legs with fusion history p(s(oo)o): a direct sum made by block(), then hard-fused with another leg; operand 1 has lost a sector of its
+    third leg by a contraction with a projector (so its blocked leg no longer shows one charge), operand 2 has not.  Addition, to_numpy and
+    contractions over the fused leg must agree with the same operations on the unfused tensors (missing sectors behave as zeros).
+    vdot / tensordot are a recorded defect (known_findings.json): every obligation about them carries the one label KNOWN_BF."""
+    import yastn
+    def sparse(name, blocks, s=(1, 1, -1)):
+        a = yastn.Tensor(config=cfg, s=s)
+        for ts, Ds in blocks:
+            a.set_block(ts=ts, Ds=Ds, val='zeros')
+        return ctx.fill(a, name, spec['dtype'])
+    Dk = {-1: 1, 0: 2, 1: 1}; Dm = {0: 2, 1: 3, 2: 1}
+    DA = {0: 2, 1: 1}; DB = {1: 2, 2: 1}
+    blk = lambda D0, t: (t, (D0[t[0]], Dk[t[1]], Dm[t[2]]))
+    A1 = sparse('A1', [blk(DA, (0, 1, 1)), blk(DA, (1, -1, 0))])
+    A2 = sparse('A2', [blk(DA, (0, 1, 1)), blk(DA, (1, -1, 0))])
+    B1 = sparse('B1', [blk(DB, (1, 0, 1)), blk(DB, (2, 0, 2))])
+    B2 = sparse('B2', [blk(DB, (1, 0, 1)), blk(DB, (2, -1, 1))])
+    x1 = yastn.block({(0, 0, 0): A1, (1, 0, 0): B1})
+    x2 = yastn.block({(0, 0, 0): A2, (1, 0, 0): B2})
+    P = yastn.eye(cfg, legs=[yastn.Leg(cfg, s=1, t=(0, 1), D=(2, 3)), yastn.Leg(cfg, s=-1, t=(0, 1), D=(2, 3))], isdiag=False)
+    r1 = yastn.tensordot(x1, P, axes=(2, 0))          # loses the sector m = 2 (and with it the charge 2 on the blocked leg)
+    r2 = x2
+    fr1 = r1.fuse_legs(axes=((0, 1), 2), mode='hard')
+    fr2 = r2.fuse_legs(axes=((0, 1), 2), mode='hard')
+    op = spec['op']
+    lu = [union_leg(a, b) for a, b in zip(r1.get_legs(native=True), r2.get_legs(native=True))]
+    R1, R2 = reassemble(r1, lu), reassemble(r2, lu)
+    if op == 'add':
+        c = fr1 + fr2
+        wellformed(ctx, c, 'blocked_fused add', check_dense_zero=False)
+        ctx.eq(reassemble(c.unfuse_legs(axes=0), lu), R1 + R2, 'a + b over p(s(oo)o) legs == sum of the unfused tensors')
+    elif op == 'to_numpy':
+        u = c = (fr1 + fr2)
+        ctx.eq(reassemble(fr1.unfuse_legs(axes=0), lu), R1, 'unfuse(fuse) of the operand that lost a sector')
+    elif op == 'vdot':
+        try:
+            v = yastn.vdot(fr1, fr2)
+        except yastn.YastnError as e:
+            ctx.check(False, KNOWN_BF, f'vdot raised YastnError: {e}')
+        ctx.eq([v], [(dense.conj(R1) * R2).sum()], KNOWN_BF)
+    else:
+        try:
+            v = yastn.tensordot(fr1, fr2, axes=(0, 0), conj=(1, 0))
+        except yastn.YastnError as e:
+            ctx.check(False, KNOWN_BF, f'tensordot raised YastnError: {e}')
+        ref = np.tensordot(dense.conj(R1), R2, axes=((0, 1), (0, 1)))
+        lv = list(v.get_legs(native=True))
+        ctx.eq(reassemble(v, [lu[2].conj() if lv[0].s != lu[2].s else lu[2], lu[2]]), ref, KNOWN_BF)
+    return {'op': op}
 
 
 def k_reject(ctx, rng, spec, cfg):
